@@ -2,10 +2,11 @@
   Drv/All.lean — table of all driver handlers.
 -/
 import Deepali.Drv.GridOps
+import Deepali.Drv.Sample
 namespace Deepali.Drv
 open Deepali.Proto
 
 def allHandlers : List (String × Reader String) :=
-  gridHandlers
+  gridHandlers ++ sampleHandlers
 
 end Deepali.Drv
